@@ -392,7 +392,9 @@ func superviseShard(ck *Check, job Job, tier string, shard, nshards int, deadlin
 		sc.Buffer(make([]byte, 1<<20), 1<<28)
 		for sc.Scan() {
 			var m flushMsg
-			if err := json.Unmarshal(sc.Bytes(), &m); err != nil {
+			dec := json.NewDecoder(strings.NewReader(sc.Text()))
+			dec.UseNumber() // keep 64-bit integers inside violation cases exact
+			if err := dec.Decode(&m); err != nil {
 				continue
 			}
 			tot.merge(m.Ctx)
@@ -622,7 +624,9 @@ func ReplayMain(file string, times int) int {
 		return 2
 	}
 	var cs map[string]interface{}
-	if err := json.Unmarshal(b, &cs); err != nil {
+	dec := json.NewDecoder(strings.NewReader(string(b)))
+	dec.UseNumber() // keep 64-bit integers of embedded ASTs exact
+	if err := dec.Decode(&cs); err != nil {
 		fmt.Fprintln(os.Stderr, err)
 		return 2
 	}
